@@ -342,7 +342,8 @@ class Cluster:
         return [p for p in self.sched.procs if p.kind == kind]
 
 
-def run_cluster(job, hosts: int, workers: int, *, max_steps: int = 400_000, horizon_s: float | None = None, on_cluster: Callable | None = None, gpu: dict | None = None) -> dict:
+def run_cluster(job, hosts: int, workers: int, *, max_steps: int = 400_000, horizon_s: float | None = None, on_cluster: Callable | None = None, gpu: dict | None = None,
+                deviations: dict | None = None) -> dict:
     """One execution of the whole runtime. Returns a result dict (outputs or exception, leftovers, steps, virtual time)."""
     from cascade.controller.impl import run as ctrl_run
     from cascade.scheduler.graph import precompute
@@ -381,6 +382,18 @@ def run_cluster(job, hosts: int, workers: int, *, max_steps: int = 400_000, hori
         execs.append(p)
     if on_cluster is not None:
         on_cluster(cl)
+    # schedule deviations: at choice point i (several processes ready) run the alt-th ready process instead of the first
+    widths: list = []
+    dev = deviations or {}
+
+    def chooser(ready):
+        i = len(widths)
+        widths.append(len(ready))
+        a = dev.get(i, 0)
+        return a if a < len(ready) else 0
+
+    S.chooser = chooser
+    result["choice_widths"] = widths
     horizon = [None if horizon_s is None else S.now_ns + int(horizon_s * 1e9)]
     result["cluster"] = cl
 
